@@ -77,7 +77,7 @@ public :
 
     
 protected:
-    int                get() const { return *( int * )this & 0xFFFFFF; }
+    int                get() const { return (int)data.highmid | ((int)data.low << 16); }
     void            set(uint32_t value) { data.highmid = value; data.low = *( ( unsigned char * )&value + 2 ); }
 };
 
